@@ -119,6 +119,10 @@ def build_mesh(m):
         mesh = mesh.rotate(r["angle"], axis=r.get("axis", 2))
         pts = mesh.points + np.asarray(r["shift"], dtype=float)[: mesh.dim]
         mesh = fem.Mesh(pts, mesh.cells, mesh.cell_type)
+    tr = m.get("translate")
+    if tr:
+        # the same body somewhere else in space (rigidly translated)
+        mesh = fem.Mesh(mesh.points + np.asarray(tr, dtype=float)[: mesh.dim], mesh.cells, mesh.cell_type)
     rn = m.get("renumber")
     if rn:
         # a valid but unusual numbering: points and cells in shuffled order
@@ -571,6 +575,19 @@ class World:
                 return np.array(v, dtype=bool)
             return np.array(v, dtype=int)
 
+        if case == "uniaxial" and self.doc["mesh"].get("translate") and bc.get("sym", True) is True and not bc.get("clamped", False):
+            # a translated body: the symmetry planes pass through its corner, not through the origin -
+            # the load case is put together from dof.symmetry(x=, y=, z=) and the moved face
+            tr = list(self.doc["mesh"]["translate"]) + [0.0, 0.0]
+            axis = bc.get("axis", 0)
+            b = api("dof.symmetry", fem.dof.symmetry, self.seed, f0, axes=(True, True, True), x=tr[0], y=tr[1], z=tr[2])
+            b = dict(b)
+            skip = [True] * f0.dim
+            skip[axis] = False
+            right = float(self.mesh.points[:, axis].max())
+            b["move"] = fem.Boundary(f0, skip=tuple(skip), value=0.0, **{("fx", "fy", "fz")[axis]: right})
+            ramp_bc["move"] = b["move"]
+            return b, ramp_bc
         if case == "uniaxial":
             b, _ = api("dof.uniaxial", fem.dof.uniaxial, self.seed, self.field, clamped=bc.get("clamped", False), axis=bc.get("axis", 0), sym=symflags(bc.get("sym", True)), move=0.0)
             ramp_bc["move"] = b["move"]
